@@ -1,12 +1,267 @@
+import OdmlModel.Model.Reader
 import Driver.Util
 import Driver.Loop
 open Lean Drv
 
 namespace DrvC16
+open Reader
 
-/-- Stub: replaced when the model of C16 is built. -/
-def handle (_j : Json) : Except String Json := throw "model of C16 not built"
+/-! JSON glue for the reader models (trusted, outside the proofs).
+
+Requests
+  {"op":"xml_calls","tree":X,"csvfail":[raw...]}
+  {"op":"xml_read","tree":X,"mode":"strict"|"lenient","guards":"fixed"|"original",
+   "csvfail":[raw...],"env":[{"kind":K,"args":A,"fail":b,"auto":null|"name"}...]}
+  {"op":"xml_text","parsed":"syntaxError"|"valueError","mode":..,"guards":..}
+  {"op":"dict_calls","value":J}
+  {"op":"dict_read","value":J,"mode":..,"guards":..,"env":[{"kind":K,"args":D,"fail":b,"auto":null|J}...]}
+-/
+
+def chars (j : Json) : Except String Str :=
+  match j with
+  | .str s => pure s.toList
+  | _ => throw "string expected"
+
+partial def decXml (j : Json) : Except String Xml := do
+  if let .ok o := getStr j "o" then
+    return .other (if o == "pi" then .pi else if o == "comment" then .comment else .entity)
+  let tag ← getStr j "t"
+  let attrs ← (← getArr j "a").toList.mapM fun p =>
+    match p with
+    | .arr #[.str k, .str v] => pure (k.toList, v.toList)
+    | _ => throw "bad attribute"
+  let text ← match ← getVal j "x" with
+    | .null => pure none
+    | .str s => pure (some s.toList)
+    | _ => throw "bad text"
+  let kids ← (← getArr j "k").toList.mapM decXml
+  pure (.elem tag.toList attrs text kids)
+
+partial def decJ (j : Json) : Except String J :=
+  match j with
+  | .null => pure .null
+  | .bool b => pure (.bool b)
+  | .num n => if n.exponent == 0 then pure (.num n.mantissa) else throw "ints only; floats are {f:repr}"
+  | .str s => pure (.str s.toList)
+  | .arr xs => do pure (.arr (← xs.toList.mapM decJ))
+  | .obj _ => do
+    if let .ok r := getStr j "f" then return .flt r.toList
+    let ps ← getArr j "o"
+    let kvs ← ps.toList.mapM fun p =>
+      match p with
+      | .arr #[.str k, v] => do pure (k.toList, ← decJ v)
+      | _ => throw "bad pair"
+    pure (.obj kvs)
+
+partial def encJ : J → Json
+  | .null => Json.null
+  | .bool b => Json.bool b
+  | .num i => jint i
+  | .flt r => jobj [("f", jchars r)]
+  | .str s => jchars s
+  | .arr xs => jarr (xs.map encJ)
+  | .obj kvs => jobj [("o", jarr (kvs.map fun p => jarr [jchars p.1, encJ p.2]))]
+
+def decKind (s : String) : Except String Kind :=
+  match s with
+  | "odML" => pure .doc
+  | "section" => pure .sec
+  | "property" => pure .prop
+  | _ => throw s!"bad kind {s}"
+
+def encKind : Kind → Json
+  | .doc => "odML"
+  | .sec => "section"
+  | .prop => "property"
+
+def encCard : Card.Card → Json
+  | none => Json.null
+  | some (a, b) => jarr [optInt a, optInt b]
+
+def decCard (j : Json) : Except String Card.Card :=
+  match j with
+  | .null => pure none
+  | .arr #[a, b] => do
+    let f : Json → Except String (Option Int) := fun x =>
+      match x with
+      | .null => pure none
+      | .num n => pure (some n.mantissa)
+      | _ => throw "bad bound"
+    pure (some (← f a, ← f b))
+  | _ => throw "bad card"
+
+def encAVal : AVal → Json
+  | .none => Json.null
+  | .text s => jobj [("s", jchars s)]
+  | .values raw => jobj [("csv", jchars raw)]
+  | .card c => jobj [("card", encCard c)]
+
+def decAVal (j : Json) : Except String AVal :=
+  match j with
+  | .null => pure .none
+  | _ => do
+    if let .ok s := getStr j "s" then return .text s.toList
+    if let .ok s := getStr j "csv" then return .values s.toList
+    pure (.card (← decCard (← getVal j "card")))
+
+def encArgs (a : Args) : Json := jarr (a.map fun p => jarr [jchars p.1, encAVal p.2])
+
+def decArgs (j : Json) : Except String Args :=
+  match j with
+  | .arr xs => xs.toList.mapM fun p =>
+    match p with
+    | .arr #[.str k, v] => do pure (k.toList, ← decAVal v)
+    | _ => throw "bad arg"
+  | _ => throw "bad args"
+
+def encDVal : DVal → Json
+  | .raw j => jobj [("raw", encJ j)]
+  | .card c => jobj [("card", encCard c)]
+
+def decDVal (j : Json) : Except String DVal := do
+  if let .ok v := getVal j "raw" then return .raw (← decJ v)
+  pure (.card (← decCard (← getVal j "card")))
+
+def encDArgs (a : DArgs) : Json := jarr (a.map fun p => jarr [jchars p.1, encDVal p.2])
+
+def decDArgs (j : Json) : Except String DArgs :=
+  match j with
+  | .arr xs => xs.toList.mapM fun p =>
+    match p with
+    | .arr #[.str k, v] => do pure (k.toList, ← decDVal v)
+    | _ => throw "bad arg"
+  | _ => throw "bad args"
+
+def dargsEq : DArgs → DArgs → Bool
+  | [], [] => true
+  | (k, x) :: xs, (l, y) :: ys => k == l && DVal.beq x y && dargsEq xs ys
+  | _, _ => false
+
+def decMode (j : Json) : Except String Mode := do
+  match ← getStr j "mode" with
+  | "strict" => pure .strict
+  | "lenient" => pure .lenient
+  | s => throw s!"bad mode {s}"
+
+def decGuards (j : Json) : Except String Guards := do
+  match ← getStr j "guards" with
+  | "fixed" => pure Guards.fixed
+  | "original" => pure Guards.original
+  | s => throw s!"bad guards {s}"
+
+def decCsvFail (j : Json) : Except String (Str → Bool) := do
+  let l ← (← getArr j "csvfail").toList.mapM chars
+  pure (fun s => l.contains s)
+
+structure XEntry where
+  kind : Kind
+  args : Args
+  fail : Bool
+  auto : Name Str
+
+def decEnv (j : Json) : Except String Env := do
+  let csv ← decCsvFail j
+  let entries ← match j.getObjVal? "env" with
+    | .ok (.arr xs) => xs.toList.mapM fun e => do
+      let auto ← match ← getVal e "auto" with
+        | .null => pure Name.fresh
+        | .str s => pure (Name.given s.toList)
+        | _ => throw "bad auto"
+      pure (XEntry.mk (← decKind (← getStr e "kind")) (← decArgs (← getVal e "args")) (← getBool e "fail") auto)
+    | _ => pure []
+  let find := fun (k : Kind) (a : Args) => entries.find? (fun e => e.kind == k && e.args == a)
+  pure { csvFails := csv
+         createFails := fun k a => match find k a with | some e => e.fail | none => false
+         autoName := fun k a => match find k a with | some e => e.auto | none => .fresh }
+
+structure DEntry where
+  kind : Kind
+  args : DArgs
+  fail : Bool
+  auto : Name J
+
+def decDEnv (j : Json) : Except String DEnv := do
+  let entries ← match j.getObjVal? "env" with
+    | .ok (.arr xs) => xs.toList.mapM fun e => do
+      let auto ← match ← getVal e "auto" with
+        | .null => pure Name.fresh
+        | v => do pure (Name.given (← decJ (← getVal v "g")))
+      pure (DEntry.mk (← decKind (← getStr e "kind")) (← decDArgs (← getVal e "args")) (← getBool e "fail") auto)
+    | _ => pure []
+  let find := fun (k : Kind) (a : DArgs) => entries.find? (fun e => e.kind == k && dargsEq e.args a)
+  pure { createFails := fun k a => match find k a with | some e => e.fail | none => false
+         autoName := fun k a => match find k a with | some e => e.auto | none => .fresh }
+
+partial def encObj (encName : ν → Json) : Obj ν → Json
+  | .mk k n made props secs =>
+    jobj [("kind", encKind k),
+          ("name", match n with | .fresh => Json.null | .given x => jobj [("g", encName x)]),
+          ("made", jbool made),
+          ("props", jarr (props.map (encObj encName))),
+          ("secs", jarr (secs.map (encObj encName)))]
+
+def encLeak : Leak → String
+  | .attributeError => "AttributeError"
+  | .keyError => "KeyError"
+  | .csvError => "Error"
+  | .valueError => "ValueError"
+  | .typeError => "TypeError"
+  | .ctorError => "constructor"
+
+def encRes (encName : ν → Json) : Except Err (Obj ν × Nat) → Json
+  | .ok (o, w) => jobj [("outcome", "doc"), ("warnings", jnat w), ("doc", encObj encName o)]
+  | .error .parserException => jobj [("outcome", "ParserException")]
+  | .error .invalidVersion => jobj [("outcome", "InvalidVersionException")]
+  | .error (.leak l) => jobj [("outcome", "leak"), ("class", encLeak l)]
+
+def handle (j : Json) : Except String Json := do
+  let op ← getStr j "op"
+  match op with
+  | "xml_calls" =>
+    let x ← decXml (← getVal j "tree")
+    let env ← decEnv j
+    let calls := callsTag Guards.fixed env .doc x
+    pure (jarr (calls.map fun c => jobj [("kind", encKind c.1), ("args", encArgs c.2)]))
+  | "xml_read" =>
+    let x ← decXml (← getVal j "tree")
+    let env ← decEnv j
+    pure (encRes jchars (readXml (← decGuards j) env (← decMode j) x))
+  | "xml_text" =>
+    let p ← match ← getStr j "parsed" with
+      | "syntaxError" => pure Parsed.syntaxError
+      | "valueError" => pure Parsed.valueError
+      | s => throw s!"bad parsed {s}"
+    let env : Env := ⟨fun _ => false, fun _ _ => false, fun _ _ => .fresh⟩
+    pure (encRes jchars (readXmlText (← decGuards j) env (← decMode j) p))
+  | "dict_calls" =>
+    let x ← decJ (← getVal j "value")
+    let env : DEnv := ⟨fun _ _ => false, fun _ _ => .fresh⟩
+    let calls := dCalls Guards.fixed env x
+    pure (jarr (calls.map fun c => jobj [("kind", encKind c.1), ("args", encDArgs c.2)]))
+  | "dict_read" =>
+    let x ← decJ (← getVal j "value")
+    let env ← decDEnv j
+    pure (encRes encJ (readDict (← decGuards j) env (← decMode j) x))
+  | _ => throw s!"unknown op {op}"
 
 end DrvC16
 
-def main : IO Unit := Drv.runLoop DrvC16.handle
+/-- Same protocol as `Drv.runLoop`, but every answer is flushed: the harness keeps one driver
+    process per worker and asks it one request at a time (the constructor calls of the first
+    answer are executed on the real library before the second request can be written). -/
+partial def DrvC16.loop (hin hout : IO.FS.Stream) : IO Unit := do
+  let line ← hin.getLine
+  if line.isEmpty then return ()
+  let ans : Json :=
+    match Json.parse line with
+    | .error e => Json.mkObj [("err", Json.str s!"parse: {e}")]
+    | .ok j =>
+      match DrvC16.handle j with
+      | .ok r => Json.mkObj [("r", r)]
+      | .error e => Json.mkObj [("err", Json.str e)]
+  hout.putStrLn ans.compress
+  hout.flush
+  DrvC16.loop hin hout
+
+def main : IO Unit := do
+  DrvC16.loop (← IO.getStdin) (← IO.getStdout)
